@@ -8,6 +8,22 @@ def R(build, shards=1, **kw):
 
 
 PLAN = {
+    "C02": {
+        "quick": [R("v0", 4), R("miri", 2, timeout=1500)],
+        "thorough": [R("v0", 16), R("v2", 4), R("asan", 4), R("miri", 8, timeout=7200)],
+    },
+    "C03": {
+        "quick": [R("v0", 2), R("miri", 2, timeout=1500)],
+        "thorough": [R("v0", 8), R("v2", 2), R("asan", 2), R("miri", 8, timeout=7200)],
+    },
+    "C05": {
+        "quick": [R("v0", 4), R("v1", 2), R("miri", 2, timeout=1500)],
+        "thorough": [R("v0", 16), R("v1", 8), R("v2", 4), R("asan", 4), R("tsan", 4), R("miri", 8, timeout=7200)],
+    },
+    "C06": {
+        "quick": [R("v0", 4), R("v1", 2), R("miri", 2, timeout=1500)],
+        "thorough": [R("v0", 16), R("v1", 8), R("tsan", 4), R("miri", 8, timeout=7200)],
+    },
     "C16": {
         "quick": [R("v0", 2), R("miri", 4, mode="leakcheck", tree_borrows_odd=True, timeout=1500)],
         "thorough": [R("v0", 8), R("v2", 2), R("asan", 4), R("tsan", 4),
